@@ -307,7 +307,9 @@ class GraphQLSchema:
             extensions=deepcopy(self.extensions),
             ast_node=deepcopy(self.ast_node),
             extension_ast_nodes=deepcopy(self.extension_ast_nodes),
-            assume_valid=True,
+            # the copy is as valid as the original: only a schema that has been
+            # validated successfully (or was assumed valid) needs no validation
+            assume_valid=self._validation_errors == [],
         )
 
     def get_root_type(self, operation: OperationType) -> GraphQLObjectType | None:
